@@ -280,6 +280,11 @@ def drv_partial(case):
     combos = list(itertools.product(*[_subranges(v) for v in lv]))
     if len(combos) > case.get("max_interps", 40):
         combos = rng.sample(combos, case.get("max_interps", 40))
+    # entries that lie (partly) outside the leaf's declared bounds: the interpretation says what the leaf is
+    for j, v in enumerate(lv[:2]):
+        lo, hi = proj.I(v.bounds.lower), proj.I(v.bounds.upper)
+        for o in (hi + 2, (lo - 1, hi + 1), (hi + 1, hi + 3), lo - 2):
+            combos.append(tuple(o if i == j else (None if (i + j) % 2 else proj.I(w.bounds.lower)) for i, w in enumerate(lv)))
     points = []
     shared = {}
     for k, combo in enumerate(combos):
@@ -328,7 +333,37 @@ def _as_form(o, k, puan):
         return o if k % 2 else puan.Bounds(*o)
     return _form(o, k, puan)
 
+def _assume_wide(case):
+    """assumptions and interpretations with magnitudes beyond the default integer range: the given dictionaries, the remaining leaves
+    at critical points; judged point by point (PuanTrace.EvAssumeWide)"""
+    puan, pg = _mods()
+    m0 = _mk(case)
+    if not _valid(m0): return []
+    lv = proj.leaves(m0)
+    rng = random.Random(case.get("seed", 0))
+    crit = _critical_points(m0, rng, n_extra=6)
+    out = []
+    for k, D in enumerate(case["dicts"]):
+        tok = proj.Tok()
+        m = _mk(case)
+        pm = proj.node(m, tok)
+        Df = {i: _as_form(tuple(o) if isinstance(o, list) else o, k + j, puan) for j, (i, o) in enumerate(D.items())}
+        r = m.assume(dict(Df))
+        rest_ids = [v.id for v in lv if v.id not in D]
+        seen, pts = set(), []
+        for asg in crit:
+            rest = {i: asg[i] for i in rest_ids}
+            key = tuple(rest.items())
+            if key in seen: continue
+            seen.add(key)
+            I1 = {i: _form(v, k, puan) for i, v in rest.items()}
+            union = dict(Df); union.update(I1)
+            pts.append({"rest": proj.pairs_iv(I1, tok), "ev_assumed": proj.bounds(r.evaluate(dict(I1))), "ev_union": proj.bounds(_mk(case).evaluate(union))})
+        out.append({"op": "assume_wide", "model": pm, "dict": proj.pairs_iv(Df, tok), "res": proj.node(r, tok), "points": pts})
+    return out
+
 def drv_assume(case):
+    if case.get("dicts"): return _assume_wide(case)
     puan, pg = _mods()
     m0 = _mk(case)
     if not _valid(m0): return []
